@@ -27,7 +27,7 @@ pub struct EnetCase {
     pub l1_ratio: f64,
     pub intercept: bool,
     pub tol: f64,
-    /// `max_iterations` of the fit (tier-dependent fixed work: 30 000 quick, 100 000 thorough)
+    /// `max_iterations` of the fit (tier-dependent fixed work: 10 000 quick, 100 000 thorough)
     #[serde(default = "default_max_iter")]
     pub max_iter: u32,
     /// seed of the random perturbation directions tried by the oracle
